@@ -103,6 +103,15 @@ def gen_case(rng):
                 b=rng.randint(1, 5), seed=rng.randrange(2**31), steps=steps, fill=rng.randint(1, 4))
 
 
+def drop(st):
+    """a store taken out of the pool is DELETED (its file would otherwise be picked up again, with its old
+    content, by a later add_store of the same name on a disk pool)"""
+    if hasattr(st, 'delete'):
+        st.delete()
+    elif hasattr(st, 'close'):
+        st.close()
+
+
 def one(ctx, case, tmp, reqs, meta):
     calls = Calls()
     stag = dtag = 0
@@ -130,22 +139,19 @@ def one(ctx, case, tmp, reqs, meta):
             cands = [n for n in pool.stores if n in ('d', 'S0', 'S1') and len(pool.stores) > 1]
             if cands:
                 st = pool.remove_store(cands[0])
-                if hasattr(st, 'close'):
-                    st.close()
+                drop(st)
         elif step == 'replace-summary':
             stag += 1
             # a changed summary invalidates what was computed FROM it: those stores are dropped by the user
             for n in [s for s in list(pool.stores) if s.startswith('S') or s == 'd']:
                 st = pool.remove_store(n)
-                if hasattr(st, 'close'):
-                    st.close()
+                drop(st)
             m = make_model(case, calls, stag, dtag)
         elif step == 'replace-distance':
             dtag += 1
             if 'd' in pool.stores:
                 st = pool.remove_store('d')
-                if hasattr(st, 'close'):
-                    st.close()
+                drop(st)
             m = make_model(case, calls, stag, dtag)
         elif step == 'reopen' and case['disk']:
             pool.save()
@@ -257,7 +263,7 @@ def process(ctx, n):
 
 
 def run(ctx):
-    process(ctx, ctx.budget(40, 800))
+    process(ctx, ctx.budget(140, 800))
 
 
 def search(ctx):
